@@ -191,7 +191,8 @@ def cnode(o):
 
 def celt(e):
     from GTC import lib
-    if isinstance(e, bool): raise Unmodelled('bool')
+    import numpy as np
+    if isinstance(e, (bool, np.bool_)): return '(@EI NF %s)' % cz(int(e))
     if isinstance(e, numbers.Integral): return '(@EI NF %s)' % cz(int(e))
     if isinstance(e, float): return '(@EN NF %s)' % cf(e)
     if isinstance(e, lib.UncertainReal):
@@ -413,9 +414,24 @@ def one_call(case, a, b, bases):
             expected = '(Ok (%s, %s, []))' % (R, A2)
     else:
         raise ValueError(fn)
-    if fn in ('solve', 'invab') and b is not None and a.dtype != b.dtype:
-        call = '(CDtypeMismatch NF)'
-    return '(check_call NF %s %s)' % (call, expected), info
+    checker = 'check_call NF'
+    if fn in LU_FNS:
+        forms = (case.get('a_form'), case.get('b_form') if b is not None else None)
+        if 'list' in forms:
+            call = '(CListArg NF)'                                   # C15-4: no .dtype / .shape on a list
+        elif a.dtype.kind in 'iu' and case.get('a_form') == 'ndarray' and not \
+                (b is not None and a.dtype != b.dtype and fn in ('solve', 'invab')):
+            # C15-4: ndarray.copy() keeps the integer dtype and every store of ludcmp / _lubksb truncates: values are
+            # judged by the oracle only; arguments-unchanged is still checked here
+            info['skipped'] = 'int-ndarray-values'
+            return None, info
+        elif b is not None and a.dtype != b.dtype and fn in ('solve', 'invab'):
+            call = '(CDtypeMismatch NF)'                             # the assert comes before any copy
+        elif a.dtype == bool:
+            call = '(CBoolDtype NF)'                                 # C15-4: unary + on numpy booleans in copy()
+        elif a.dtype.kind in 'iu' and fn in ('inv', 'invab'):
+            checker = 'check_call_int_result []'                     # C15-4: result stored through a float -> int cast
+    return '(%s %s %s)' % (checker, call, expected), info
 
 # ------------------------------------------------------------------ in-place changes between calls
 def gen_mutations(rng, shape_a, shape_b, kind, npool, oracle_dom=None, exact=False):
@@ -479,13 +495,13 @@ def case_terms(case):
     out = []
     t, info = one_call(case, a, b, bases)
     info['prelude'] = pre; info['call'] = 0
-    if t is not None: out.append((t, info))
+    out.append((t, info))
     arrs = {'a': a, 'b': b}
     for k, muts in enumerate(case.get('sequence') or []):
         tags = apply_mutations(muts, arrs, pool)
         t, info = one_call(case, arrs['a'], arrs['b'], bases)
         info['prelude'] = tags + ['repeat-call' if muts else 'repeat-call-unchanged']; info['call'] = k + 1
-        if t is not None: out.append((t, info))
+        out.append((t, info))
     return out
 
 HEADER = '''From Coq Require Import ZArith List PrimFloat.
@@ -707,20 +723,19 @@ LU_FNS = ('solve', 'inv', 'det', 'invab')
 
 def add_dtype_forms(rng, case, oracle=False):
     """arguments that are not object arrays: uarrays built from NUMERIC ndarrays (which keep their dtype), plain
-    ndarrays, nested lists.  Only for all-int / all-float contents.  Kept out (defects of the unchanged tree,
-    reported): integer dtypes with inv / invab (result array allocated with a.dtype: truncated), plain INTEGER
-    ndarrays with solve / inv / det (ndarray.copy keeps the dtype: truncated), lists with solve / inv / det
-    (AttributeError), bool."""
+    ndarrays, nested lists.  Only for all-int / all-float contents.  The four sub-classes of known finding C15-4 are
+    generated too: integer dtypes with inv / invab (result allocated with a.dtype: truncated; modelled exactly),
+    plain INTEGER ndarrays with solve / inv / det / invab (ndarray.copy keeps the dtype, every store truncates: only
+    arguments-unchanged is compared in the correspondence, values by the oracle), nested lists with the LU
+    functions (AttributeError), bool dtype with the LU functions (UFuncTypeError)."""
     kind, fn = case['kind'], case['fn']
     if kind not in ('int', 'float') or rng.random() < 0.45: return
     lu = fn in LU_FNS
     dts = (INT_DTYPES if kind == 'int' else ['float64', 'float64'] + (['float32', 'complex128'] if oracle else []))
     if case.get('tiny'): dts = [d for d in dts if d != 'float32']
     dt = rng.choice(dts)
-    if lu and kind == 'int' and fn in ('inv', 'invab'): return
     form = rng.choice(['uarray', 'uarray', 'ndarray', 'list'])
-    if lu and form == 'list': form = 'uarray'
-    if lu and form == 'ndarray' and kind == 'int': form = 'uarray'
+    if lu and kind == 'int' and rng.random() < 0.12: dt, form = 'bool', 'uarray'
     if case.get('style') == 'nonsquare': form = 'uarray'
     for key in ('a', 'b'):
         if case.get(key) is None and not (case.get('n' + key)): continue
@@ -810,7 +825,10 @@ def run_corr(rng, ncases, name):
             continue
         cases.append(case); ncalls += len(tis)
         for t, info in tis:
-            terms.append(t); infos.append((case, info))
+            if t is not None:
+                terms.append(t); infos.append((case, info))
+            if info.get('skipped'): stats['model-skipped:' + info['skipped']] += 1
+            info.setdefault('prelude', []); info.setdefault('call', 0)
             stats.update(classify(case, info))
             if info['args_modified']:
                 mism.append({'kind': 'argument-modified', 'case': case, 'call': info['call']})
